@@ -67,11 +67,11 @@ def grep_forbidden() -> list[str]:
     return hits
 
 
-def audit_axioms(theorems: list[str]) -> dict[str, list[str] | None]:
+def audit_axioms(theorems: list[str], module: str = "Proofs") -> dict[str, list[str] | None]:
     """`#print axioms` for every property theorem; None = the theorem does not exist / did not check."""
     import re
     import tempfile
-    src = "import Proofs\n" + "\n".join(f"#print axioms {t}" for t in theorems) + "\n"
+    src = f"import {module}\n" + "\n".join(f"#print axioms {t}" for t in theorems) + "\n"
     with tempfile.NamedTemporaryFile("w", suffix=".lean", delete=False, dir=LEAN_DIR) as tf:
         tf.write(src)
         path = tf.name
@@ -92,7 +92,7 @@ def prove(res: "Result", module: str, theorems: list[str]) -> bool:
     """Build the property's proof module and audit its theorems. Records the proof keys of the evidence.
     Returns False when a proof obligation no longer checks (the caller then searches for a failing input)."""
     ok, log = lake_build((module,))
-    audited = audit_axioms(theorems) if ok else {t: None for t in theorems}
+    audited = audit_axioms(theorems, module) if ok else {t: None for t in theorems}
     bad_axioms = {t: a for t, a in audited.items() if a is not None and not set(a) <= STD_AXIOMS}
     missing = [t for t, a in audited.items() if a is None]
     forbidden = grep_forbidden()
